@@ -65,6 +65,10 @@ CHECKS = {
    text="Bounded-horizon progress under a faithful host timer model: a generated prefix history (timers fire only if armed, at their deadline; lost transmit timestamps; masters coming and going; P2P faults and recoveries; run-time slave-only switches) is continued with (a) total silence and (b) a steadily announcing better master, both driven by the daemon's loop (timers as armed, periodic BMCA, immediate transmit timestamps). (a): every non-faulty port is Master within 2*receiptTimeout+6 announce intervals and then emits Announce and Sync/Follow_Up at the configured rates (+-1 per 8 intervals); slave-only instances listen with a live receipt timer. (b): port 1 is slave of that master within the bound and its delay requests are never more than two delay intervals apart.",
    note="Liveness is checked as bounded-horizon safety with explicit bounds. One known finding (port recovered from Faulty without receipt timer) has its own signature and a deterministic reproducer.",
    technique="stateful property-based testing with a discrete-event host model and bounded-progress oracle"),
+ "C17": dict(level="exploration", design="DESIGN.md §4 C17",
+   text="Three generated-input mechanisms: (1) the history generators of six other checks re-run over a lock implementation that records any acquisition requested while the lock is held; (2) dedicated histories whose parent Announces carry a version number encoded redundantly in every data set field, with parent/time-properties snapshots taken at every outermost exclusive release (exactly the states another thread can observe) and required to be homogeneous; (3) schedule injection with real threads over an RwLock-based lock that parks set_clock_quality / set_slave_only after each of their lock releases while BMCA rounds run, with a serialisability oracle (final state must equal one of the two serial orders) and homogeneous observer snapshots.",
+   note="Interleavings are owned at lock-release granularity only (sound because all shared state is behind the lock); the OS scheduler is not otherwise controlled. BMCA cannot overlap port handlers by type state.",
+   technique="property-based testing with a lock-discipline monitor, release-point snapshot invariants and deterministic schedule injection with a serialisability oracle"),
 }
 NA_REASON = "check not built yet in this round (design in DESIGN.md §4); will be claimed once its check exists"
 
